@@ -110,7 +110,7 @@ class Uninit:
 UNINIT = Uninit()
 
 VARIANT_IDX = {'None': 0, 'Some': 1, 'Ok': 0, 'Err': 1, 'Less': -1, 'Equal': 0, 'Greater': 1, 'V4': 0, 'V6': 1,
-               'Borrowed': 0, 'Owned': 1, 'NotPresent': 0, 'NotUnicode': 1}
+               'Borrowed': 0, 'Owned': 1, 'NotPresent': 0, 'NotUnicode': 1, 'Start': 0, 'End': 1, 'Current': 2}
 VARIANT_BY_IDX = {('Option', 0): 'None', ('Option', 1): 'Some', ('Result', 0): 'Ok', ('Result', 1): 'Err'}
 
 
@@ -205,7 +205,7 @@ class Executor:
                  max_steps=2_000_000):
         s.prog = prog; s.models = models; s.max_block_visits = max_block_visits; s.max_frames = max_frames
         s.max_paths = max_paths; s.max_steps = max_steps
-        s.solver = z3.SolverFor('QF_BV'); s.solver.set('timeout', solver_timeout_ms)
+        s.solver_timeout_ms = solver_timeout_ms
         s.stats = {'queries': 0, 'sat': 0, 'unsat': 0, 'unknown': 0, 'solver_s': 0.0, 'model_hits': 0, 'steps': 0,
                    'forks': 0, 'paths': 0, 'calls_mir': 0, 'calls_model': 0}
         s.used_fns = set(); s.used_models = set()
@@ -214,6 +214,10 @@ class Executor:
         s.fresh_n = 0
         s.trace_on = os.environ.get('MIRSE_TRACE') == '1'
         s.concrete_messages = False; s.dec_digits = 6; s.allow_non_ascii = False
+        s.slow_query_s = 5.0; s.cur_where = ''
+        s.merge_fns = []; s.blind = False; s.havoc_fns = []; s.memo_fns = []
+        s.fork_sites = {} if os.environ.get('MIRSE_FORK_SITES') else None
+        s._stack = []
 
     # ---- solver
     def fresh(s, prefix):
@@ -221,28 +225,34 @@ class Executor:
         return '%s!%d' % (prefix, s.fresh_n)
 
     def check(s, pc, extra=None, want_model=True):
-        """-> (status, model) ; status in 'sat','unsat','unknown'"""
+        """-> (status, model) ; status in 'sat','unsat','unknown'.  One fresh (non-incremental) QF_BV solver per query:
+        measured much faster here than push/pop on a long-lived solver, which switches z3 to its incremental core."""
         t = time.time()
-        s.solver.push()
-        try:
-            for c in pc:
-                if c is True: continue
-                s.solver.add(zb(c))
-            if extra is not None: s.solver.add(zb(extra))
-            r = s.solver.check()
-            m = s.solver.model() if (r == z3.sat and want_model) else None
-        finally:
-            s.solver.pop()
+        sol = z3.SolverFor('QF_BV'); sol.set('timeout', s.solver_timeout_ms)
+        for c in pc:
+            if c is not True: sol.add(zb(c))
+        if extra is not None: sol.add(zb(extra))
+        r = sol.check()
+        m = sol.model() if (r == z3.sat and want_model) else None
         dt = time.time() - t
+        if dt > s.slow_query_s:
+            sys.stderr.write('[mirse] slow query %.1fs result=%s pc=%d conjuncts at %s\n' % (dt, r, len(pc), s.cur_where))
+            if os.environ.get('MIRSE_DUMP_SLOW'):
+                open(os.environ['MIRSE_DUMP_SLOW'], 'w').write(sol.to_smt2())
+                sz = sorted(((len(zb(c).sexpr()), i) for i, c in enumerate(pc) if c is not True), reverse=True)[:8]
+                sys.stderr.write('   biggest conjuncts (chars, index): %r ; extra=%d\n' % (sz, len(zb(extra).sexpr()) if extra is not None else 0))
+                raise SystemExit(3)
         s.stats['queries'] += 1; s.stats['solver_s'] += dt
-        k = 'sat' if r == z3.sat else 'unsat' if r == z3.unsat else 'unknown'
-        s.stats[k] += 1
-        return k, m
+        kk = 'sat' if r == z3.sat else 'unsat' if r == z3.unsat else 'unknown'
+        s.stats[kk] += 1
+        return kk, m
 
     def feasible(s, st, cond):
         """is pc ∧ cond satisfiable?  returns (True|False|None, model).  Uses the state's cached model first."""
         if cond is True: return True, st.model
         if cond is False: return False, None
+        if s.blind: return True, None
+        s.cur_where = st.where()
         if st.model is not None:
             try:
                 v = st.model.eval(cond, model_completion=True)
@@ -289,6 +299,10 @@ class Executor:
             return Int('char', ord(b))
         if ch == 'b' and c[1:2] == "'":
             return Int('u8', M.unescape(c[2:-1])[0])
+        if c.startswith('ZeroSized: '):
+            t = c[11:]
+            if t.startswith('{closure@'): return Closure(t, ())
+            return FnItem(t)
         m = re.match(r'^(.*) \{\{\s*\}\}$', c)   # unit struct constant: `null::Null {{  }}`
         if m: return Struct(m.group(1), ())
         # const item / promoted / fn item
@@ -541,6 +555,7 @@ class Executor:
             base = re.sub(r'::<.*?>$', '', name)
             if rv[4] is None and m and m.group(2) in VARIANT_IDX and not rv[4]:
                 return Enum(re.sub(r'::<.*>', '', m.group(1)).split('::')[-1], m.group(2), ops)
+            if rv[4] is None and name in ('Start', 'End', 'Current'): return Enum('SeekFrom', name, ops)
             return Struct(strip_generics(name), ops)
         if k == 'closure':
             return Closure(rv[1], [s.operand(st, fr, o) for o in rv[2]])
@@ -606,7 +621,10 @@ class Executor:
             outs = []
             alts = [(simp_bool(c), r) for c, r in res.alts]
             alts = [(c, r) for c, r in alts if c is not False]
-            if len(alts) > 1: s.stats['forks'] += 1
+            if len(alts) > 1:
+                s.stats['forks'] += 1
+                if s.fork_sites is not None:
+                    k = '%s@bb%d' % (short_name(fr.fn.name)[-50:], fr.bb); s.fork_sites[k] = s.fork_sites.get(k, 0) + 1
             for i, (c, r) in enumerate(alts):
                 ok, mdl = s.feasible(st, c)
                 if ok is False: continue
@@ -647,12 +665,59 @@ class Executor:
         s.finish_call(st, fr, dest, ret_bb, res)
         return [st]
 
+    def run_merged(s, st, fn, args):
+        """function summarisation: explore fn(args) without feasibility queries, then merge the returned values into one
+        if-then-else value.  Only for functions without side effects (no &mut arguments, world unchanged); returns a model
+        result (value | Fork) or None when merging is not possible (caller then executes the function normally)."""
+        for a in args:
+            if isinstance(a, MutRef): return None
+        sub = st.clone()
+        base_pc = len(sub.pc); depth = len(sub.frames)
+        sub.world['_in_merge'] = True
+        sub.world['_merge_depth'] = depth
+        s.new_frame(sub, fn, list(args), None, None)
+        sub.frames[-1].cont = _MERGE_RETURN
+        was_blind = s.blind; s.blind = True
+        saved_paths = s.stats['paths']
+        try:
+            outs = s.explore(sub)
+        except Unsupported:
+            s.blind = was_blind; raise
+        finally:
+            s.blind = was_blind
+        s.stats['paths'] = saved_paths
+        s.stats['merged_calls'] = s.stats.get('merged_calls', 0) + 1
+        w0 = {k: v for k, v in st.world.items() if not k.startswith('_')}
+        rets = []; others = []
+        for o in outs:
+            cond = b_and(*o.pc[base_pc:])
+            w1 = {k: v for k, v in o.world.items() if not k.startswith('_')}
+            if o.outcome[0] == 'merge-return':
+                if any(w1.get(k) is not w0.get(k) for k in set(w0) | set(w1)): return None
+                rets.append((cond, o.outcome[1]))
+            elif o.outcome[0] == 'panic':
+                others.append((cond, Panic(o.outcome[1])))
+            else:
+                others.append((cond, StopR(o.outcome[1], o.outcome[2])))
+        merged = merge_vals(rets) if rets else None
+        if rets and merged is None: return None
+        alts = list(others)
+        if rets: alts.append((b_or(*[c for c, _ in rets]), merged))
+        if len(alts) == 1 and not others: return merged
+        return Fork(alts)
+
     def resolve(s, callee, crate=None):
         f = s.prog.get(callee, crate)
         if f is not None: return f
         base = strip_generics(callee)
         f = s.prog.get(base, crate)
         if f is not None: return f
+        # calls into a dependency are printed with the crate name (`file_ext::FileExt::read_file`)
+        if not base.startswith('<'):
+            segs = base.split('::')
+            for k in range(1, len(segs) - 1):
+                f = s.prog.get('::'.join(segs[k:]), crate)
+                if f is not None and not f.is_const: return f
         return None
 
     def find_model(s, callee):
@@ -694,6 +759,8 @@ class Executor:
             if k == 'return':
                 rv = fr.locals.get('_0', UNIT)
                 st.frames.pop()
+                if fr.cont is _MERGE_RETURN:
+                    st.outcome = ('merge-return', rv); return [st]
                 if fr.cont is not None:
                     caller = st.frames[-1]
                     res = fr.cont(s, st, rv)
@@ -777,6 +844,8 @@ class Executor:
         if other is not None:
             alts.append((b_and(*[b_not(c) for c in conds]), other))
         s.stats['forks'] += 1
+        if s.fork_sites is not None:
+            k = '%s@bb%d' % (short_name(fr.fn.name)[-50:], fr.bb); s.fork_sites[k] = s.fork_sites.get(k, 0) + 1
         outs = []
         live = []
         for c, b in alts:
@@ -808,6 +877,33 @@ class Executor:
         if mdl is None:
             fn = s.resolve(callee, fr.fn.crate)
             if fn is not None:
+                if s.merge_fns and not st.world.get('_in_merge') and any(p.search(fn.name) or p.search(callee) for p in s.merge_fns):
+                    res = s.run_merged(st, fn, args)
+                    if res is not None:
+                        return s.apply_result(st, fr, dest, ret_bb, res)
+                if s.havoc_fns:
+                    for p, builder in s.havoc_fns:
+                        if p.search(fn.name) or p.search(callee):
+                            key = ('havoc', fn.name, tuple(val_key(s.deref(st, a)) for a in args))
+                            memo = st.world.get('_memo', {})
+                            if key in memo: v = memo[key]
+                            else:
+                                v = builder(s, st, fn, args)
+                                memo = dict(memo); memo[key] = v; st.world['_memo'] = memo
+                            s.used_models.add('havoc:' + short_name(fn.name))
+                            return s.apply_result(st, fr, dest, ret_bb, v)
+                if s.memo_fns and any(p.search(fn.name) or p.search(callee) for p in s.memo_fns):
+                    key = ('memo', fn.name, tuple(val_key(s.deref(st, a)) for a in args))
+                    memo = st.world.get('_memo', {})
+                    if key in memo:
+                        s.stats['memo_hits'] = s.stats.get('memo_hits', 0) + 1
+                        return s.apply_result(st, fr, dest, ret_bb, memo[key])
+
+                    def remember(ex_, st_, rv, key=key):
+                        m2 = dict(st_.world.get('_memo', {})); m2[key] = rv; st_.world['_memo'] = m2
+                        return rv
+                    s.new_frame(st, fn, args, dest, ret_bb, remember)
+                    return None
                 s.new_frame(st, fn, args, dest, ret_bb)
                 return None
             # trait-method call on a type parameter / closure call
@@ -818,6 +914,83 @@ class Executor:
         if dest is not None and not dest[1]: dest_ty = fr.fn.locals.get(dest[0])
         res = mdl(s, st, Call(callee, args, dest_ty, fr))
         return s.apply_result(st, fr, dest, ret_bb, res)
+
+
+def val_key(v):
+    """structural identity of a value (for memoisation of pure calls)"""
+    if isinstance(v, SymStr):
+        return ('S',) + tuple((a.ln if isinstance(a.ln, int) else ('t', a.ln.get_id()),
+                               tuple(b if isinstance(b, int) else ('t', b.get_id()) for b in a.bs)) for a in v.segs)
+    if isinstance(v, Int): return ('I', v.ty, v.v if v.conc else ('t', v.v.get_id()))
+    if isinstance(v, bool): return ('B', v)
+    if isinstance(v, (Tup, Vec)): return (type(v).__name__,) + tuple(val_key(x) for x in v.items)
+    if isinstance(v, Struct): return ('St', v.ty) + tuple(val_key(x) for x in v.fields)
+    if isinstance(v, Enum): return ('E', v.ty, v.variant) + tuple(val_key(x) for x in v.fields)
+    if isinstance(v, Opaque): return ('O', v.tag, id(v.data))
+    if hasattr(v, 'get_id'): return ('t', v.get_id())
+    return ('id', id(v))
+
+
+def _MERGE_RETURN(ex, st, rv):
+    return _MergeRet(rv)
+
+
+class _MergeRet:
+    def __init__(s, v): s.v = v
+
+
+def merge_vals(alts):
+    """[(cond, value)] with mutually exclusive conds -> one value, or None if the shapes differ"""
+    if len(alts) == 1: return alts[0][1]
+    v0 = alts[0][1]
+    if all(a[1] is v0 for a in alts): return v0
+    if isinstance(v0, Int):
+        if not all(isinstance(v, Int) and v.ty == v0.ty for _, v in alts): return None
+        out = alts[-1][1].v
+        for c, v in reversed(alts[:-1]): out = ite_bv(c, v.v, out, WIDTH[v0.ty])
+        return Int(v0.ty, out)
+    if isinstance(v0, bool) or (not isinstance(v0, (SymStr, Struct, Enum, Tup, Vec, Opaque, Closure, FnItem, MutRef, Iter, Uninit, BoxPtr)) and z3.is_bool(v0)):
+        out = alts[-1][1]
+        for c, v in reversed(alts[:-1]):
+            out = b_or(b_and(c, v), b_and(b_not(c), out))
+        return out
+    if isinstance(v0, SymStr):
+        if not all(isinstance(v, SymStr) for _, v in alts): return None
+        fl = [(c, v.flat()) for c, v in alts]
+        cap = max(f.cap for _, f in fl)
+        ln = fl[-1][1].ln
+        for c, f in reversed(fl[:-1]): ln = ite_bv(c, f.ln, ln, LW)
+        bs = []
+        for i in range(cap):
+            b = fl[-1][1].bs[i] if i < fl[-1][1].cap else 0
+            for c, f in reversed(fl[:-1]): b = ite_bv(c, f.bs[i] if i < f.cap else 0, b, 8)
+            bs.append(b)
+        return SymStr((Atom(ln, tuple(bs), min(f.minlen for _, f in fl)),))
+    if isinstance(v0, Enum):
+        if not all(isinstance(v, Enum) and v.variant == v0.variant and len(v.fields) == len(v0.fields) for _, v in alts): return None
+        fs = []
+        for i in range(len(v0.fields)):
+            m = merge_vals([(c, v.fields[i]) for c, v in alts])
+            if m is None: return None
+            fs.append(m)
+        return Enum(v0.ty, v0.variant, fs)
+    if isinstance(v0, Struct):
+        if not all(isinstance(v, Struct) and v.ty == v0.ty and len(v.fields) == len(v0.fields) for _, v in alts): return None
+        fs = []
+        for i in range(len(v0.fields)):
+            m = merge_vals([(c, v.fields[i]) for c, v in alts])
+            if m is None: return None
+            fs.append(m)
+        return Struct(v0.ty, fs)
+    if isinstance(v0, (Tup, Vec)):
+        if not all(type(v) is type(v0) and len(v.items) == len(v0.items) for _, v in alts): return None
+        fs = []
+        for i in range(len(v0.items)):
+            m = merge_vals([(c, v.items[i]) for c, v in alts])
+            if m is None: return None
+            fs.append(m)
+        return type(v0)(fs)
+    return None
 
 
 class Call:
